@@ -134,7 +134,9 @@ pub fn quoted_forms() -> Vec<String>
 				{
 					v.push(format!("{quote}{pre}{e}{post}{quote}"));
 					v.push(format!("{quote}{pre}{e}{post}{quote};"));
-					for e2 in ["\\n", "\\x41", "\\u{41}", "\\u{D800}", "\\q"]
+					// every ordered pair of escapes: state kept by the lexer between two escapes of
+					// one literal (digit counts, values, first error) shows only here
+					for e2 in escapes
 					{
 						v.push(format!("{quote}{pre}{e}{e2}{post}{quote}"));
 					}
